@@ -408,6 +408,7 @@ class Report:
         self.floors = {}
         self.notes = []
         self.extra = {}
+        self.deferred = []  # analysis errors that only matter if no violation was found
 
     def _add(self, verdict, rule, where, function, construct, why, nontrivial):
         self.items.append(
@@ -444,6 +445,10 @@ class Report:
 
     def note(self, text):
         self.notes.append(text)
+
+    def defer(self, text):
+        """an unmodelled idiom met by one rule instance: ANALYSIS-ERROR unless the tree has real violations anyway"""
+        self.deferred.append(text)
 
 
 def obl(rep, fn, node, rule, cond, construct, why_ok="", why_bad=None, nontrivial=True):
@@ -500,6 +505,8 @@ def finish(rep, tier, t0, explanation, assumptions, prog, extra=None):
             matched.append((hit, it))
         else:
             violations.append(it)
+    if rep.deferred and not violations:
+        raise AnalysisError("; ".join(rep.deferred[:3]))
     # floors (a rule that stopped early because it found a violation is not "vacuous")
     for rule, n in rep.floors.items():
         if rep.counts.get(rule, 0) < n and not violations:
